@@ -44,7 +44,7 @@ D == INSTANCE Durability WITH
         Frags <- TraceFrags, Bits <- {}, MaxWrites <- N + 1, MaxOpN <- 1,
         Kinds <- {"bit", "multi", "batch2", "roaring", "rowop", "large"},
         KeyChunks <- 1, TornTailFails <- FALSE, RoaringTwoWrites <- TwoWrites,
-        RowOpAsync <- AsyncRow, MultiSeparateWrites <- FALSE, Contentless <- TRUE, NoOpnSnapshot <- NoOpnSnap
+        RowOpAsync <- AsyncRow, MultiSeparateWrites <- FALSE, SnapTmpTruncated <- TRUE, Contentless <- TRUE, NoOpnSnapshot <- NoOpnSnap
 
 dvars == <<mem, snap, log, torn, tmp, tmpc, opn, sq, kdisk, ktorn, kpart, mtmp,
            infl, done, hdr, rowed, acked, goal, akeys, gkeys, nw, pc, rec, reck>>
